@@ -627,6 +627,7 @@ type c06EntryDef struct {
 	Heavy  bool // a second route into code that a cheaper entry already drives: thorough tier runs it one token shorter
 	Raw    bool // the input is the request target itself: only relative targets can come out
 	NoRoot bool // the fallback of this entry is a fixed non-root path (X-Forwarded-Uri: /x)
+	Fails  bool // the request always ends in an error page (a callback that fails)
 	Direct bool // s is the only candidate and the path is under the proxy prefix: a refused s must become exactly "/"
 	Run    func(e *c06Env, s string) *c06Obs
 }
@@ -696,6 +697,52 @@ func c06LoginEntry(px func(e *c06Env) *Proxy, target string, hdr func(s string) 
 	}
 }
 
+// c06FailingCallback: a login is started by the browser, the provider's redirect comes back with the
+// redirect component of the state replaced by s, and the callback fails: the provider refuses the
+// code ("code") or the state carries a nonce that is not this login's ("nonce").
+func c06FailingCallback(px func(e *c06Env) *Proxy, how string) func(e *c06Env, s string) *c06Obs {
+	return func(e *c06Env, s string) *c06Obs {
+		o := &c06Obs{}
+		e.freshIdP()
+		b := newBrowser(px(e), "http", c06Host)
+		start := b.Get("/oauth2/start")
+		if start.Status != http.StatusFound {
+			o.Note = fmt.Sprintf("login does not start: %d", start.Status)
+			return o
+		}
+		cb, _, err := e.idp.Authorize(start.Location(), "alice")
+		if err != nil {
+			o.Note = "provider refused the authorization request: " + err.Error()
+			return o
+		}
+		u, err := url.Parse(cb)
+		if err != nil {
+			o.Note = err.Error()
+			return o
+		}
+		q := u.Query()
+		nonce := q.Get("state")
+		if i := strings.IndexByte(nonce, ':'); i >= 0 {
+			nonce = nonce[:i]
+		}
+		switch how {
+		case "code":
+			q.Set("code", "never-issued")
+		case "nonce":
+			nonce = "bm9uY2Utb2Ytbm9ib2R5"
+		}
+		q.Set("state", nonce+":"+s)
+		u.RawQuery = q.Encode()
+		o.Delivered = true
+		resp := b.Callback(u.String())
+		if resp.Status == http.StatusFound {
+			o.Note = "logged-in"
+		}
+		e.collect(o, resp, "location")
+		return o
+	}
+}
+
 func c06Entries() []*c06EntryDef {
 	plain := func(e *c06Env) *Proxy { return e.px }
 	rp := func(e *c06Env) *Proxy { return e.rp }
@@ -723,6 +770,12 @@ func c06Entries() []*c06EntryDef {
 				return nonce + ":" + s
 			}
 		})},
+		// callbacks that FAIL, each at another point of the handler (the state the provider echoes back is
+		// request data from the first line on, long before the handler validates it for the final redirect):
+		// no CSRF cookie at all; code the provider refuses; state nonce of nobody's login
+		{Name: "callback-state-without-cookie", Fails: true, Direct: true, Run: c06Simple(plain, "GET", "/oauth2/callback?code=c0de&state=bm9uY2U:{rd}", nil, "location", nil)},
+		{Name: "callback-state-refused-code", Fails: true, Login: true, Direct: true, Run: c06FailingCallback(plain, "code")},
+		{Name: "callback-state-foreign-nonce", Fails: true, Login: true, Direct: true, Run: c06FailingCallback(plain, "nonce")},
 		{Name: "start-xauth-callback", Login: true, Heavy: true, Direct: true, Run: c06LoginEntry(plain, "/oauth2/start", xauth, nil)},
 		{Name: "rp-start-xf-uri-callback", Login: true, Heavy: true, Run: c06LoginEntry(rp, "/oauth2/start", xfURI, nil)},
 		{Name: "sign-in-post-body-rd", Direct: true, Run: c06Simple(plain, "POST", "/oauth2/sign_in", credsRD, "location", nil)},
@@ -960,6 +1013,9 @@ func c06PlainPaths(depth int) []string {
 		}
 	}
 	rec("", 0)
+	// application paths that merely begin with the characters of one of the proxy's own paths
+	// (no segment boundary after them): they are the application's, not the proxy's
+	out = append(out, "/oauth2-proxy-docs/x", "/oauth2.html", "/oauth2demo/", "/oauth2x", "/oauth", "/oauth2_/a", "/pingpong", "/ready-set", "/robots.txt.bak", "/oauth2%2Fsign_in")
 	return out
 }
 
@@ -1138,7 +1194,7 @@ func init() {
 		id:    "C06",
 		level: "exploration",
 		rule: "layer 1: every concatenation of <= L1 tokens (+ absolute-URL grammar product) x 8 whitelists through IsValidRedirect, accepted strings through the real http.Redirect + header serialisation + independent WHATWG resolver; " +
-			"layer 2: every concatenation of <= L2 tokens (+ product) x 8 whitelists x 24 real entry points of a built proxy (Location of every 3xx, action/hidden rd/links of sign-in and error pages, login-start target); " +
+			"layer 2: every concatenation of <= L2 tokens (+ product) x 8 whitelists x 27 real entry points of a built proxy (Location of every 3xx, action/hidden rd/links of sign-in and error pages, login-start target); " +
 			"layer 3: every plain path (<= depth segments) x query x 3 login flows must land byte for byte. " +
 			"non-trivial = layer 1: distinct string the validator accepted under some whitelist; layer 2: distinct (entry, whitelist, string) whose observed target is not the fallback \"/\"; layer 3: distinct (flow, page) that landed exactly",
 		assumptions: []string{
@@ -1176,6 +1232,8 @@ func init() {
 				c.SetMax("slowest_shard_ms_"+name, time.Since(t0).Milliseconds())
 				t0 = time.Now()
 			}
+			concExplore(c, "C06", c06ConcScenarios(up), 1, 2)
+			lap("concurrent")
 			c06Layer1(c, l1, product)
 			lap("layer1")
 			c06Layer2(c, up, l2, bd.HeavyL2, productE2E, wls)
@@ -1205,10 +1263,14 @@ func init() {
 				}
 			}
 			for _, ent := range c06Entries() {
-				need("e2e_"+ent.Name+"_delivered", "e2e_"+ent.Name+"_carried")
+				need("e2e_" + ent.Name + "_delivered")
 				if !ent.NoRoot {
 					need("e2e_" + ent.Name + "_root")
 				}
+				if ent.Fails {
+					continue // nothing is ever carried by a callback that fails: every page points at "/"
+				}
+				need("e2e_" + ent.Name + "_carried")
 				if !ent.Raw {
 					need("e2e_" + ent.Name + "_offsite_allowed")
 				}
@@ -1225,6 +1287,13 @@ func init() {
 }
 
 func c06Replay(c *Ctx, raw json.RawMessage) string {
+	var cr0 concReplay
+	if json.Unmarshal(raw, &cr0) == nil && cr0.Kind == concKind {
+		world.NewIdP()
+		up := world.NewUpstream("u")
+		defer up.Close()
+		return concReplayOne(c, "C06", c06ConcScenarios(up), cr0)
+	}
 	var cs c06Case
 	if err := json.Unmarshal(raw, &cs); err != nil {
 		return "unreadable case: " + err.Error()
